@@ -27,6 +27,7 @@ ASSUMPTIONS = ['offline side is the real offline monitor (fresh object; an objec
 REAL = common.REAL_ALL
 STUBS = common.STUBS_ALL
 PROBES = ['same_name_twice', 'cohosted', 'buffer_longer_than_3', 'one_sample_trace', 'declared_unused_var']
+INTERLEAVING_MEASURE = 'distinct (co-hosted monitor schedule, per-step first-input permutation) patterns'
 STATE_MEASURE = 'distinct digests of the online operator memory (every operation object __dict__) after an update'
 
 
@@ -145,6 +146,8 @@ def run(sc):
                 break
     if common.count_nontrivial(ref):
         r.nontrivial.add('%s|n=%d' % (sg.shape(ast), n))
+    r.interleavings.add('%s|%s' % (''.join('x' if (co and co['sched'][i]) else '.' for i in range(n)),
+                                   ''.join(str(sc['vars'].index(o[0])) for o in orders[:n])))
     keys = [sg.key(x) for x in sg.walk(ast) if x[0] not in ('var', 'const')]
     if len(keys) != len(set(keys)):
         r.probes['same_name_twice'] += 1
